@@ -402,6 +402,22 @@ func c17aBulkBody(index string, ts int64, n int) []byte {
 	return b.Bytes()
 }
 
+// what the OTLP trace ingest stores per span (spanToJson), as a document: the trace routes search the index "traces"
+func c17aSpanDoc(tsNano int64, traceID, spanID, parent, service, name string) string {
+	return fmt.Sprintf(`{"trace_id":%q,"span_id":%q,"parent_span_id":%q,"service":%q,"trace_state":"","name":%q,"kind":"SPAN_KIND_SERVER","start_time":%d,"end_time":%d,"duration":5000000,"dropped_attributes_count":0,"dropped_events_count":0,"dropped_links_count":0,"status":"STATUS_CODE_OK","events":"[]","links":"[]","http.method":"GET"}`,
+		traceID, spanID, parent, service, name, tsNano, tsNano+5000000)
+}
+
+const c17aDepDoc = `{"c17svc.c17db":3,"c17db.c17svc":1}`
+
+func c17aBulkOf(index string, docs ...string) []byte {
+	var b bytes.Buffer
+	for _, d := range docs {
+		fmt.Fprintf(&b, `{"index":{"_index":%q}}`+"\n%s\n", index, d)
+	}
+	return b.Bytes()
+}
+
 type c17aBootStep struct {
 	srv, method, path, ctype string
 	body                     []byte
@@ -430,6 +446,10 @@ func c17aBootSteps(now time.Time) []c17aBootStep {
 		add("i", "POST", "/otlp/v1/traces", c17aPB, c17aOtlpTraceBody(ts), "")
 		add("i", "POST", "/otlp/v1/logs", c17aPB, c17aOtlpLogBody(ts), "")
 	}
+	// the indexes behind the trace routes exist (the OTLP route alone does not make the index known to searches)
+	tid2 := "c2c2c2c2c2c2c2c2c2c2c2c2c2c2c2c2"
+	add("i", "POST", "/elastic/_bulk", c17aJ, c17aBulkOf("traces", c17aSpanDoc(nowS*1e9, tid2, "a1a1a1a1a1a1a1a1", "", "c17svc", "c17op"), c17aSpanDoc(nowS*1e9+1e6, tid2, "a2a2a2a2a2a2a2a2", "a1a1a1a1a1a1a1a1", "c17db", "c17query")), "")
+	add("i", "POST", "/elastic/_bulk", c17aJ, c17aBulkOf("service-dependency", c17aDepDoc), "")
 	add("i", "POST", "/loki/api/v1/push", c17aJ, []byte(fmt.Sprintf(`{"streams":[{"stream":{"host":"h1","b":"x"},"values":[["%d","foo line a=1"],["%d","bar line"]]}]}`, nowS*1e9, nowS*1e9+1)), "")
 	add("i", "POST", "/services/collector/event", c17aJ, []byte(fmt.Sprintf(`{"event":{"a":1,"b":"x","m":"hec"},"index":"c17hec","time":%d}`, nowS)), "")
 	up, ct := c17aUploadBody()
